@@ -15,6 +15,7 @@ import (
 	"sort"
 	"strconv"
 	"strings"
+	"time"
 
 	sdkmath "cosmossdk.io/math"
 	"github.com/cosmos/cosmos-sdk/store/prefix"
@@ -793,10 +794,24 @@ func runCombined(seed uint64, n int, out *Out) {
 					amount = 100
 				}
 				pd := 0
-				if r.Chance(6) {
-					pd = int(r.Pick([]int64{int64(owner), 7}))
+				if r.Chance(8) {
+					pd = int(r.Pick([]int64{int64(owner), 7, 7, 8}))
 				}
-				kyc, ign, appr, kid := genKyc(owner)
+				kycWho := owner
+				if pd != 0 && pd != owner && r.Chance(60) {
+					// the ticket names another account that has given the owner a deposit grant (the ordinary set-up of a
+					// delegated house deposit); a SUBACCOUNT deposit must refuse such a ticket all the same
+					lim := amount + r.Pick([]int64{0, 1, 1000})
+					t := time.Unix(now+r.Range(5, 60), 0).UTC()
+					if err := e.App.AuthzKeeper.SaveGrant(e.Ctx, e.Accts[owner], e.Accts[pd], &housetypes.DepositAuthorization{SpendLimit: sdkmath.NewInt(lim)}, &t); err == nil {
+						out.Op("GR %d %d %d %d %d", pd, owner, 0, lim, t.Unix())
+						out.Count("op.subDeposit.foreign-depositor-with-grant")
+						if r.Chance(70) {
+							kycWho = pd // identity data approved for the named depositor
+						}
+					}
+				}
+				kyc, ign, appr, kid := genKyc(kycWho)
 				key, valid := signKey()
 				claims := map[string]interface{}{"kyc_data": kyc}
 				if pd != 0 {
@@ -812,6 +827,11 @@ func runCombined(seed uint64, n int, out *Out) {
 					_, err := ss.HouseDeposit(sdk.WrapSDKContext(ctx), msg)
 					return err
 				})
+				if err == nil && pd != 0 && pd != owner {
+					// C06: a ticket takes effect only for the account it names; this one names another depositor
+					out.Fail(MonFail{Property: "C06", Monitor: "ticket_binds_depositor", Class: "subaccount.HouseDeposit/foreign-depositor", History: h,
+						Detail: fmt.Sprintf("subaccount house deposit of owner %d took effect with a ticket naming account %d as the depositor (amount %d, market %d)", owner, pd, amount, m.n)})
+				}
 				w.finish(err, pan, "subDeposit")
 			case c < 70:
 				// ---- subaccount house withdraw (aimed at a participation of a subaccount most of the time)
